@@ -97,6 +97,16 @@ def plan(b, seed, per_valid, cap):
                         "caller_md": k % 2 == 1}  # every second caller already has outgoing metadata in its context
                 cmds.append(base)
                 meta.append((s, m, "both", "valid", p, res))
+                if k == 0 and pobj and isinstance(p, dict):
+                    # required string attributes carried in metadata with the (valid) value "": the key is sent, the value is empty
+                    req = set(b.schema.resolve(m["payload"]).get("required") or [])
+                    fields = dict(b.schema.fields(m["payload"]))
+                    empt = [mp["attr"] for mp in (m.get("grpc") or {}).get("metadata") or [] if mp["attr"] in req and mp["attr"] in fields
+                            and (b.schema.resolve(fields[mp["attr"]]).get("type") or {}).get("prim") == "String" and not b.schema.eff_val(fields[mp["attr"]])]
+                    if empt:
+                        c2 = dict(base, payload=dict(p, **{a: "" for a in empt}))
+                        cmds.append(c2)
+                        meta.append((s, m, "both", "valid", c2["payload"], res))
                 # the same exchange with the OneOf unions of payload and result filled in (round trip only: the validation
                 # specification has no unions, the mutations below start from the values without them)
                 if has_union(b.schema, m.get("payload")) or has_union(b.schema, m.get("result")):
@@ -341,6 +351,8 @@ def run_roundtrip(c, n, per_valid, cap):
     c04.load_format_verdicts(c)
     work = designs.scratch("C10rt")
     builds = e2e.build_many(c.seed, range(n), lambda i: ["-grpc-design"], work, tags="grpcglue", path_prefix=FAKEBIN, workers=8)
+    # one design on its own: an attribute of an alias type (with an Enum of its own) carried in gRPC metadata
+    builds += e2e.build_many(c.seed, [1000], lambda i: ["-grpc-design"], work, tags="grpcglue", path_prefix=FAKEBIN, workers=1)
     total = 0
     for b in builds:
         if b.error:
